@@ -35,12 +35,14 @@ Lemma session_keeps : forall cp l p h, copies_ok cp = true -> session_keeps_ctx 
 Proof.
   intros cp l p h C K. unfold session, session_keeps_ctx in *.
   assert (C3 : cp_session cp = true) by (unfold copies_ok in C; apply andb_prop in C; apply C).
-  destruct (l_ctx l); try discriminate; cbn [eval_form]; rewrite ?C3;
-    destruct (l_init l); rewrite ?get_instance_ctx by exact C; reflexivity.
+  assert (C2 : cp_clone cp = true).
+  { unfold copies_ok in C. apply andb_prop in C. destruct C as [C _]. apply andb_prop in C. apply C. }
+  destruct (l_ctx l); try discriminate; cbn [eval_form]; rewrite ?C3, ?C2;
+    destruct (l_own l); destruct (l_init l); rewrite ?get_instance_ctx by exact C; reflexivity.
 Qed.
 
 Lemma session_rebinds : forall cp c h, copies_ok cp = true ->
-  h_ctx (session cp (mk_slit FParam false false) c h) = c.
+  h_ctx (session cp (mk_slit FParam false false false) c h) = c.
 Proof.
   intros cp c h C. unfold session. cbn.
   assert (C3 : cp_session cp = true) by (unfold copies_ok in C; apply andb_prop in C; apply C).
@@ -145,16 +147,19 @@ Example bad_site_loses_ctx :
   run cp_all (NCall KExec FBackground) (mk_h 7 1) = [(KExec, 0)].
 Proof. reflexivity. Qed.
 Example bad_session_loses_ctx :
-  run cp_all (NSess (mk_slit FBackground true false) [NCall KQuery FStmt]) (mk_h 7 1) = [(KQuery, 0)].
+  run cp_all (NSess (mk_slit FBackground true false false) [NCall KQuery FStmt]) (mk_h 7 1) = [(KQuery, 0)].
 Proof. reflexivity. Qed.
 Example getinstance_must_copy :
-  run (mk_copies false true true) (NSess (mk_slit FAbsent true false) [NCall KQuery FStmt]) (mk_h 7 1) = [(KQuery, ctx_nil)].
+  run (mk_copies false true true) (NSess (mk_slit FAbsent true false false) [NCall KQuery FStmt]) (mk_h 7 1) = [(KQuery, ctx_nil)].
+Proof. reflexivity. Qed.
+Example own_statement_needs_clone :
+  run (mk_copies true false true) (NSess (mk_slit FAbsent true false true) [NCall KExec FStmt]) (mk_h 7 1) = [(KExec, ctx_nil)].
 Proof. reflexivity. Qed.
 Example good_tree :
-  let t := NBegin (mk_slit FStmt true false) FStmt
+  let t := NBegin (mk_slit FStmt true false false) FStmt
              [NCall KExec FStmt;
-              NSess (mk_slit FAbsent true false) [NSess (mk_slit FAbsent false false) [NWrapped FStmt [(KPrepare, FParam); (KExec, FParam)]]];
-              NSess (mk_slit FStmt true true) [NCall KQuery FStmt]] in
+              NSess (mk_slit FAbsent true false false) [NSess (mk_slit FAbsent false false true) [NWrapped FStmt [(KPrepare, FParam); (KExec, FParam)]]];
+              NSess (mk_slit FStmt true true true) [NCall KQuery FStmt]] in
   node_ok t = true /\ has_rebind t = false
   /\ run cp_all t (mk_h 7 1) = [(KBegin, 7); (KExec, 7); (KPrepare, 7); (KExec, 7); (KQuery, 7)].
 Proof. repeat split. Qed.
